@@ -566,6 +566,10 @@ class StmtMixin:
                 out.append((o, s1))
             elif o[0] == 'raise_consumer':
                 out.append((('raise', o[1]), s1))
+            elif o[0] == 'return_consumer':
+                out.append((('return', o[1]), s1))
+            elif o[0] == 'break_consumer':
+                out.append((NORMAL, s1))
             else:
                 raise EngineError('break/continue escaped generator')
         return out
